@@ -561,6 +561,8 @@ def check_inverse_numeric(desc, ctx):
 # 3. scalar forms: python float, numpy.float64, 0-d array; agreement with the 1-d result; zero scalar
 # =====================================================================================================================
 _FORMS = (("float", float), ("float64", np.float64), ("0-d", lambda v: np.array(float(v))))
+_INT_FORMS = (("int", int), ("int64", np.int64), ("0-d int64", lambda v: np.array(int(v), dtype=np.int64)),
+              ("1-d int64", lambda v: np.array([int(v)], dtype=np.int64)))
 
 
 def _scalar(v, what):
@@ -647,6 +649,33 @@ def check_scalar_forms(desc, ctx):
                 raise Violation(f"{_fmt(model, P, T)}: {gname}({form_name} 0.0) = {x0!r}, expected 0",
                                 tag="zero_inverse", detail={"model": model})
         ctx.label("zero_scalar")
+    # (d) integral abscissae handed over with an integer type give the value of the same number as a float
+    lo_x, hi_x = x_range(model, P, T)
+    with np.errstate(all="ignore"):
+        try:
+            y_ends = sorted(float(np.ravel(np.asarray(f(np.array([v])), dtype=float))[0]) for v in (lo_x, hi_x))
+        except CalculationError:
+            y_ends = None
+    for fn, nm, rng in ((f, fname, (lo_x, hi_x)), (g, gname, y_ends)):
+        if rng is None or not all(np.isfinite(rng)):
+            continue
+        ks = sorted({k for k in (math.ceil(rng[0]), math.floor(rng[1]), (math.ceil(rng[0]) + math.floor(rng[1])) // 2)
+                     if rng[0] <= k <= rng[1] and 0 < k < 2 ** 40})
+        for k in ks:
+            try:
+                ref = _scalar(fn(float(k)), f"{nm}({float(k)!r})")
+            except CalculationError:
+                ctx.label("library_reported_failure")
+                continue
+            for form_name, form in _INT_FORMS:
+                what = f"{_fmt(model, P, T)} {nm}({form_name} {k})"
+                try:
+                    got = _scalar(fn(form(k)), what)
+                except CalculationError:
+                    raise Violation(f"{what} is refused although {nm}({float(k)!r}) = {ref!r}", tag="form_integer")
+                if not (got == ref or abs(got - ref) <= 1e-12 * abs(ref) or (np.isnan(got) and np.isnan(ref))):
+                    raise Violation(f"{what} = {got!r} but {nm}({float(k)!r}) = {ref!r}", tag="form_integer")
+            ctx.label("integer_forms_checked")
     if deferred:
         raise deferred[0]
     ctx.label(model)
